@@ -45,3 +45,33 @@ def check_basis_objects(ctx, pid, rng):
                     ctx.fail("oracle", f"{pid}/oracle/basis-object-history/order{order}", f"{sc['name']}: FCBasisSetO{order} after the calls [{sname}] holds {got.shape[1]} basis vectors, a fresh object's run() gives {fresh.shape[1]} "
                              "(the last call is the same plain run() in both): the result depends on what the object did before",
                              replay={**rep, "order": order, "sequence": sname}, has_input=True)
+
+
+def check_handover_then_compute(ctx, pid, rng):
+    """A basis set of one order built by another object from a proper SUBGROUP of operations (translations only / proper rotations only)
+    is handed to an object created without operations; a different order computed afterwards on the receiving object must be the
+    full-group basis a fresh object computes (and therefore invariant under every operation of the crystal)."""
+    import spglib
+    from symfc import Symfc
+
+    for cname, diag in [("hcp", (1, 1, 1)), ("si_prim", (1, 1, 1))] + ([] if ctx.quick else [("mono_P", (1, 1, 1)), ("wurtzite", (1, 1, 1)), ("bcc_conv", (1, 1, 1))]):
+        sc = make_supercell(base_cells()[cname], diag, rng=rng, shuffle=True)
+        at = atoms_of(sc)
+        ops = spglib.get_symmetry((sc["lattice"], sc["positions"], sc["numbers"]))
+        rots, trans = np.asarray(ops["rotations"]), np.asarray(ops["translations"])
+        pure = [i for i in range(len(rots)) if (rots[i] == np.eye(3, dtype=int)).all()]
+        if len(pure) == len(rots) or not ((rots[0] == np.eye(3, dtype=int)).all() and np.abs(trans[0]).max() < 1e-9):
+            continue
+        for give, compute in ((2, 3), (3, 2)):
+            A = Symfc(at, spacegroup_operations={"rotations": rots[pure], "translations": trans[pure]}).compute_basis_set(orders=[give])
+            B = Symfc(at)
+            B.basis_set = {give: A.basis_set[give]}
+            B.compute_basis_set(orders=[compute])
+            fresh = _span(Symfc(at).compute_basis_set(orders=[compute]).basis_set[compute])
+            got = _span(B.basis_set[compute])
+            ctx.case({"cell": sc["name"], "handed_over_order": give, "computed_order": compute, "subgroup": "translations only"}, nontrivial=True)
+            ctx.count("handover-then-compute")
+            if got.shape[1] != fresh.shape[1] or not same_span(got, fresh)[0]:
+                ctx.fail("oracle", f"{pid}/oracle/handover-then-compute/order{compute}", f"{sc['name']}: an object created without operations received an order-{give} basis built from the translations only and then computed order {compute}: "
+                         f"{got.shape[1]} basis vectors, a fresh object gives {fresh.shape[1]} (the computed basis depends on what the object held before; it is invariant under a subgroup only)",
+                         replay={"cell": sc["name"], "lattice": sc["lattice"].tolist(), "positions": sc["positions"].tolist(), "numbers": [int(x) for x in sc["numbers"]], "handed_over_order": give, "computed_order": compute}, has_input=True)
